@@ -517,6 +517,14 @@ func (r *runner) engineB(nIndexes, qPerIndex int, names Naming, tag string, risk
 				terms = append(terms, t)
 			}
 			cs := Case{Kind: kind, Names: names, Steps: SpreadHistory(rng, final, terms), Variant: rng.Intn(6)}
+			var fixed []Query
+			if names != PlainNames && i == 0 {
+				// the smallest case of the name-prefix class, always present
+				d := Doc{A: []AElem{{X: []int{1}}}, B: []BElem{{Z: []int{1}}}}.norm()
+				final = map[int]Doc{1: d}
+				cs.Steps = []Step{{Ops: []Op{{ID: 1, Doc: &d}}}}
+				fixed = []Query{{Op: "all"}, {Op: "conj", Qs: []Query{{Op: "term", F: "x", V: 1}, {Op: "term", F: "z", V: 1}}}}
+			}
 			real, err := Play(c.TempDir("b"), kind, names, cs.Steps, cs.Variant)
 			if err != nil {
 				c.Inconclusive("engine B index build: " + err.Error())
@@ -536,7 +544,9 @@ func (r *runner) engineB(nIndexes, qPerIndex int, names Naming, tag string, risk
 			for k := 0; k < qPerIndex; k++ {
 				g.risky = rng.Intn(100) < riskyShare
 				var q Query
-				if k == 0 {
+				if k < len(fixed) {
+					q = fixed[k]
+				} else if k == 0 {
 					q = Query{Op: "all"}
 				} else {
 					q = g.query(1 + rng.Intn(3))
